@@ -109,4 +109,8 @@ def families(tier, seed):
     rs = [(f"resync-{k}", apigen.resync_redeliver(rng, tier)) for k in range(n)]
     return [Family("srtp-resync-redeliver", rs, monitor=apigen.redeliver_monitor),
             Family("rdbx-leaf", rdbx_scripts(tier, rng), monitor=rdbx_monitor),
-            Family("srtp-unprotect-histories", api, monitor=lambda s, c: apigen.replay_monitor(s, c, False))]
+            Family("srtp-unprotect-histories", api, monitor=lambda s, c: apigen.replay_monitor(s, c, False)),
+            # the same receive histories through srtp_unprotect_aead (AES-GCM policies, OpenSSL configuration)
+            Family("gcm-unprotect-histories", [(f"grx-{k}", apigen.with_aead(apigen.replay_history, random.Random(seed * 1000 + 105 + k), tier)[0])
+                                               for k in range(6 if tier == "quick" else 60)],
+                   monitor=lambda s, c: apigen.replay_monitor(s, c, False), config="openssl")]
